@@ -923,7 +923,7 @@ proof {  assert forall|k: int| 0 <= k && 1 + k <= r0.len() implies
                         let us = (val & 0x0F) as usize;
 proof {  assert((val & 0x0F) <= 15) by (bit_vector); }
 
-                        match self.reader.read(&mut self.buffer[0..us]) {
+                        match self.reader.read_exact(&mut self.buffer[0..us]) {
                             Ok(_) => {
 proof {  assert(self.buffer@.subrange(0, us as int) == skip(r0, 1).subrange(0, us as int));
     assert(self.reader.rest() == skip(skip(r0, 1), us as int)); }
